@@ -307,6 +307,10 @@ namespace GeographicLib {
                      const GeodesicLine& lineY,
                      Math::real maxdist, const XPoint& p0) const {
     real maxdistx = maxdist + _delta;
+    // The number of tiles, m x m, must be representable as an int (and the
+    // time taken is proportional to this number)
+    if (!(maxdistx <= 10000 * _d3))
+      throw GeographicErr("maxdist too large in Intersect::All");
     const int m = int(ceil(maxdistx / _d3)), // process m x m set of tiles
       m2 = m*m + (m - 1) % 2,                // add center tile if m is even
       n = m - 1;                             // Range of i, j = [-n:2:n]
